@@ -94,3 +94,9 @@ Print Assumptions C04_ser_check_complete_on_model.
 Theorem C04_code_facts : code_facts.
 Proof. exact code_facts_hold. Qed.
 Print Assumptions C04_code_facts.
+
+(* ... and each of those operations is one critical section of the transaction object's own
+   mutex (generated from the source): the atomic steps the serializability proof runs over *)
+Theorem C04_operations_atomic : TxnFacts.tx_ops_atomic = true.
+Proof. exact TxnFacts.tx_ops_atomic_ok. Qed.
+Print Assumptions C04_operations_atomic.
